@@ -27,6 +27,12 @@ CLAIMED = {
  "C09": dict(cat="other", tech="inverse-map derivation from the object's own rate term (substituting 0/len for counting atoms) compared with each front-end's rescale in normal form on every path",
    text="Easy counts enter TP/TN with coefficient 1 in all 16 cells; all 13 count/ratio properties equal their definitions on every path; each of the 24 (metric, configuration) front-ends applies exactly the inverse of the forward map m = m_min + (m_max-m_min)*F derived from cm() and the metric definition.",
    ref="DESIGN §4 C09"),
+ "C06": dict(cat="other", tech="path-by-path abstract evaluation of eer() with stubbed setters/root finder; guard/value correlation per return path; case analysis of the bisection loop body; prerequisites re-decided (cm table, FPR/FNR inverse maps and flip parity)",
+   text="Every return path of eer() yields an admissible EER value (0 under strict separation with the midpoint threshold, the cap min(hard fractions), the smaller hard fraction under its guard with the setter of the non-saturating rate, or a root midpoint on [0, cap]); the crossing function is sign*(T_fpr - T_fnr) normalised at 0; _find_root follows the bisection schema. The one-sample magnitude and convergence are not decided.",
+   ref="DESIGN §4 C06"),
+ "C07": dict(cat="other", tech="formula conformance of auc() against a reference term (value numbering with rate stubs) + exact evaluation of the fully inlined closed form on order-type representatives against Mann-Whitney / step area",
+   text="auc() equals, as a term, the reference construction (sorted float neighbours of all scores, own rates on both axes, joint reversal, closed window via searchsorted sides and clamps, flat extension, |trapezoid(y,x)|) for 4 axis pairs; on representatives (ties, easy samples, 4 configurations, 5 windows) the derived closed form equals the Mann-Whitney statistic and the exact step area (bounded).",
+   ref="DESIGN §4 C07"),
 }
 PENDING = "check not built yet (build phase in progress)"
 checks, na = [], []
